@@ -23,7 +23,7 @@ COQ_TARGETS = ["Props/C02.vo", "Model/C02Harness.vo", "Model/Harness.vo"]
 THEOREM_FILES = ["Props/C02.v"]
 COQ_IMPORTS = ("From Coq Require Import List ZArith Bool Arith QArith Qcanon.\n"
                "From PV Require Import Base.Index Base.Perm Base.Sum Np.Array Model.Sparse Model.Repr Model.Harness "
-               "Np.NpZ Gen.GenUtils Model.C02Spec Model.C02Dense Model.C02Sparse Model.C02Modes Model.C02Kruskal Model.C02SpKernels Model.C02Absorb Model.C02Tenmat Model.C02SpMore Model.C02KruskalMore Model.C02Tucker Model.C02Harness.\n")
+               "Np.NpZ Gen.GenUtils Model.C02Spec Model.C02Dense Model.C02Sparse Model.C02Modes Model.C02Kruskal Model.C02SpKernels Model.C02Absorb Model.C02Tenmat Model.C02SpMore Model.C02KruskalMore Model.C02Tucker Model.C02TuckerFull Model.C02Harness.\n")
 RULE = ("mttkrp/mttkrps additionally on 4-, 5- and 6-way tensors (<= ~200 entries) with skewed and balanced shapes so that every "
         "split index of min_split and Khatri-Rao products of >= 2 matrices occur in each helper; dims orders include cyclic "
         "(non-involutive) ones; otherwise shapes with <= 4 modes / <= 72 entries incl. distinct sizes (2,3,4), singleton modes and 1-way; every non-empty mode "
@@ -46,8 +46,11 @@ CORRESPONDENCE_ONLY = [
     "sparse ttm in list form beyond the first sorted mode (the first mode is the proved coordinate-list model, its dense result goes through the proved tensor.ttm), "
     "the choice of the result container (scalar / ndarray / tensor / sptensor and the 50% switch of sptensor.ttv / contract: evaluated in Coq on the expected array, no theorem), "
     "sptensor.collapse with a reducer other than sum",
-    "Kruskal innerprod with a dense / sparse / Tucker operand (via the operand's ttv), Kruskal mask",
-    "Tucker innerprod, norm (both branches of the size switch), reconstruct; Tucker mttkrp with a Kruskal operand is the proved factor-list theorem composed with C02_mttkrp_kruskal_operand by hand",
+    "Kruskal mask; Kruskal innerprod with a dense / sparse / Tucker operand is proved at the level of the arrays (C02_innerprod_kruskal_any: the weighted sum of "
+    "the operand's all-mode ttv with the factor columns) and composed by hand with the operand's proved ttv; its executable form is compared with pyttb for dense and sparse operands",
+    "Tucker innerprod with a sparse operand (dense operand: proved on both sides of the size switch; Tucker operand: proved; Kruskal operand: see Kruskal), reconstruct with "
+    "samples (= the proved full() of the row-sampled factors; the row selection itself is done by the harness); Tucker mttkrp with a Kruskal operand is the "
+    "proved factor-list theorem composed with C02_mttkrp_kruskal_operand by hand",
     "sumtensor operations as executed part by part (linearity of the defining sums is proved: C02_sum_linear_*)",
     "mixed-dtype factor lists (int64 / float32 / float64) and memory layouts of operands: the theorems speak about values; dtype promotion and layout are covered by generated inputs only",
 ]
@@ -717,6 +720,20 @@ def coq_check(c, o):
         if reps in (("sparse", "dense"), ("dense", "sparse")):
             S, T = (X, Y) if reps[0] == "sparse" else (Y, X)
             e += f" && (zimpl_innerprod_sp_dense {tgen.gsparse(S['shape'], S['subs'], S['vals'])} {tgen.gdense(T['shape'], T['data'])} =? {gz(ob['v'])})%Z"
+        if reps in (("t", "dense"), ("dense", "t")):       # ttensor.innerprod(tensor), both sides of its size switch (Model/C02TuckerFull.v)
+            Tt, Xd = (X, Y) if reps[0] == "t" else (Y, X)
+            e += (f" && (zimpl_innerprod_t_dense {tgen.gttensor(Tt['core_shape'], Tt['core_data'], Tt['factors'])} "
+                  f"{tgen.gdense(Xd['shape'], Xd['data'])} =? {gz(ob['v'])})%Z")
+        if reps == ("t", "t"):                             # ttensor.innerprod(ttensor): smaller core first
+            e += (f" && (zimpl_innerprod_tt {tgen.gttensor(X['core_shape'], X['core_data'], X['factors'])} "
+                  f"{tgen.gttensor(Y['core_shape'], Y['core_data'], Y['factors'])} =? {gz(ob['v'])})%Z")
+        if "k" in reps and ("dense" in reps or "sparse" in reps):
+            # ktensor.innerprod(tensor | sptensor) = sum_r w_r * other.ttv(columns r) with the operand's own ttv model (C02_innerprod_kruskal_any)
+            Kk, Oo = (X, Y) if reps[0] == "k" else (Y, X)
+            if Oo["rep"] == "dense":
+                e += f" && (zimpl_innerprod_k_dense {tgen.gktensor(Kk['weights'], Kk['factors'])} {tgen.gdense(Oo['shape'], Oo['data'])} =? {gz(ob['v'])})%Z"
+            else:
+                e += f" && (zimpl_innerprod_k_sp {tgen.gktensor(Kk['weights'], Kk['factors'])} {tgen.gsparse(Oo['shape'], Oo['subs'], Oo['vals'])} =? {gz(ob['v'])})%Z"
         if reps == ("k", "k"):
             e += f" && (zimpl_innerprod_kk {tgen.gktensor(X['weights'], X['factors'])} {tgen.gktensor(Y['weights'], Y['factors'])} =? {gz(ob['v'])})%Z"
         if X["rep"] == "dense" and a["Y"]["rep"] == "dense":
@@ -730,6 +747,8 @@ def coq_check(c, o):
             e += f" && qclose tol9 (Qcmult {q} {q}) (Q2Qc (inject_Z (zimpl_normsq_sp {tgen.gsparse(X['shape'], X['subs'], X['vals'])})))"
         if X["rep"] == "k":
             e += f" && qclose tol9 (Qcmult {q} {q}) (Q2Qc (inject_Z (zimpl_normsq_k {tgen.gktensor(X['weights'], X['factors'])})))"
+        if X["rep"] == "t":
+            e += f" && qclose tol9 (Qcmult {q} {q}) (Q2Qc (inject_Z (zimpl_normsq_t {tgen.gttensor(X['core_shape'], X['core_data'], X['factors'])})))"
         if X["rep"] == "dense":
             e += f" && qclose tol9 (Qcmult {q} {q}) (Q2Qc (inject_Z (zimpl_normsq_dense {tgen.gdense(X['shape'], X['data'])})))"
         return e
@@ -788,7 +807,13 @@ def coq_check(c, o):
         for m, s in zip(a["modes"], a["samples"]):
             sel[m] = f"(Some {gnlist(s)})"
             rs[m] = len(s)
-        return gmatch(rs, f"(zsample [{'; '.join(sel)}] {dX})", ob)
+        e = gmatch(rs, f"(zsample [{'; '.join(sel)}] {dX})", ob)
+        if X["rep"] == "t" and ob["k"] == "dense" and obs_ints(ob):
+            # ttensor(core, new_u).full() with new_u[m] = the sampled rows of factor m (row selection done here; full() is Model/C02TuckerFull.v)
+            look = {m: s_ for m, s_ in zip(a["modes"], a["samples"])}
+            newf = [[X["factors"][m][r_] for r_ in look[m]] if m in look else X["factors"][m] for m in range(N)]
+            e += f" && dense_eqb (zimpl_full_t {tgen.gttensor(X['core_shape'], X['core_data'], newf)}) {tgen.gdense(ob['shape'], ob['data'])}"
+        return e
     if c.op == "ttt":
         Y = a["Y"]
         s2 = shape_of(Y)
